@@ -22,6 +22,6 @@ contract("_OneTimeSelector.__call__", source=M + "_OneTimeSelector.__call__", pa
          note="when an import is kept every prefix it provides becomes 'selected', and nothing is ever unselected")
 
 from bounded import c07_imports as _b7
-bounded_check(name="c07-imports", fn=_b7.run_case, domain=_b7.domain, exhaustive=True, max_failures=100000, max_failures_per_chunk=100000,
+bounded_check(name="c07-imports", props=["C07"], fn=_b7.run_case, domain=_b7.domain, exhaustive=True, max_failures=100000, max_failures_per_chunk=100000,
               label="B3: import blocks of <= 2 statements out of 14 forms x 2 usages out of 16 x 5 actions inside a real package layout (quick: a 11-form/14-usage "
                     "sub-grid for pairs), 6 prefix-sharing scenarios and an offset-restricted organize: compiles, same printed values, __all__ exports kept, idempotent")
